@@ -8,6 +8,7 @@ TABLES dump exactly, main and every within-word automaton, 4 shells; Model.EmitB
 script byte for byte.
 Direct judgement: the extracted ScriptRead reader applied to RUST's script text must describe the automaton
 of Rust's MIN dump (labels through the literal list read from the script, states through the shell's base)."""
+import os
 import time
 
 from .. import build, emitlib, gen, impl, model, report, sexp
@@ -276,6 +277,73 @@ def shared_compadd_gap(d, shell, stmts):
     return False
 
 
+_SKELETON = {}
+
+
+def skeleton_patterns(sh):
+    """the lines of the regenerated templates of the emitter, as regular expressions: the command name and
+    MATCH_FN_NAME are substituted, every other hole must be a number"""
+    if sh in _SKELETON:
+        return _SKELETON[sh]
+    import importlib.util
+    import re
+    from .. import paths
+    spec = importlib.util.spec_from_file_location('rs2v', os.path.join(paths.ROOT, 'translator', 'rs2v.py'))
+    rs2v = importlib.util.module_from_spec(spec)
+    spec.loader.exec_module(rs2v)
+    src = open(os.path.join(paths.REPO, 'src', sh + '.rs'), encoding='utf-8').read()
+    pats = set()
+    for key, segs in rs2v.templates(src, sh + '.rs'):
+        rx = ''
+        for k, x in segs:
+            if k == 'T':
+                rx += re.escape(x)
+            elif x == 'command':
+                rx += 'cmd'
+            elif x == 'MATCH_FN_NAME':
+                rx += '__complgen_match'
+            else:
+                rx += r'\d+'
+        for line in rx.split(re.escape('\n')):
+            pats.add(line)
+    compiled = [re.compile(p) for p in pats]
+    _SKELETON[sh] = compiled
+    return compiled
+
+
+def data_tie(sh, script, out):
+    """the model's data blocks occur byte for byte, in order, in Rust's script; every other line is a line of the
+    regenerated skeleton templates.  -> None or a description of the first difference"""
+    mo = sexp.parse(out)
+    if mo[0] != 'ok':
+        return 'model says %s' % sexp.dump(mo)[:120]
+    pos = 0
+    residual = []
+    for kind, text in mo[1:]:
+        text = str(text)
+        at = script.find(text, pos)
+        if at < 0:
+            # show where it stops matching
+            k = 0
+            lines = text.split('\n')
+            here = script[pos:]
+            for ln in lines:
+                if ln and ln not in here:
+                    return 'block %s: line %r is not in the script (after offset %d)' % (kind, ln[:100], pos)
+            return 'block %s is not contiguous in the script' % kind
+        residual.append(script[pos:at])
+        pos = at + len(text)
+    residual.append(script[pos:])
+    pats = skeleton_patterns(sh)
+    for chunk in residual:
+        for ln in chunk.split('\n'):
+            if ln == '' or ln.startswith('# cmd completion script generated by '):
+                continue
+            if not any(p.fullmatch(ln) for p in pats):
+                return 'line outside the data blocks that is not a skeleton line: %r' % ln[:120]
+    return None
+
+
 def judge(sh, st, read_out):
     """-> None when the script embeds the automaton, else (why, known-finding class or None)"""
     if read_out is None:
@@ -349,6 +417,10 @@ def run(ctx, res):
             if text is not None:
                 reqs.append('readscript %s "cmd" %s' % (sh, sexp.quote(text)))
                 keys.append((i, sh, 'read'))
+            if sh != 'bash' and text is not None:
+                reqs.append('emitdata %s "cmd" %s %s %s %s' % (sh, fix_unreferenced(st['MIN'][4:-1]), sexp.dump(om), sexp.dump(osub),
+                                                             sexp.dump(shape_groups(text))))
+                keys.append((i, sh, 'data'))
             if sh == 'bash':
                 if text is not None:
                     first = text.split('\n', 1)[0]
@@ -361,6 +433,7 @@ def run(ctx, res):
     res.rule = 'random grammars (see generator G) x 4 shells; non-trivial = accepted grammars with at least one within-word automaton or command'
     nontrivial = set()
     script_ties = 0
+    data_ties = 0
     for i, d in enumerate(dumps):
         for sh in SHELLS:
             st = d[sh]
@@ -398,6 +471,13 @@ def run(ctx, res):
                         dict(replay, kind='tie-T1', stage='script', why=why), found_input=False)
                 else:
                     script_ties += 1
+            if sh != 'bash' and (i, sh, 'data') in by:
+                why = data_tie(sh, emitlib.script_of(st.get('SCRIPT')), by[(i, sh, 'data')])
+                if why is not None:
+                    tie = tie or report.Violation('tie T1 broken at stage script (%s data sections): %s' % (sh, why),
+                                                  dict(replay, kind='tie-T1', stage='script-data', why=why), found_input=False)
+                else:
+                    data_ties += 1
             if tie is None:
                 res.traces_validated += 1
             # ---- direct judgement: what the script embeds (read by the extracted Spec.ScriptRead with the shell's
@@ -417,5 +497,6 @@ def run(ctx, res):
     res.nontrivial = len(nontrivial)
     res.extra['accepted'] = accepted
     res.extra['bash_scripts_byte_identical'] = script_ties
+    res.extra['fish_zsh_pwsh_data_sections_byte_identical'] = data_ties
     res.extra['grammars'] = len(texts)
     res.extra['timing'] = timing
